@@ -4,7 +4,7 @@ import json
 META = {
     "level": "exploration",
     "technique": "symbolic TLA+ model of the XX handshake with a Dolev-Yao adversary and ideal crypto model-checked (authentication, freshness, prologue; canary without signature check); byte-level counterparts of the adversary actions applied between two real noise::Config upgrades, outcomes validated by TLC against the property-level trace spec",
-    "text": "TLC exhaustively explores the symbolic handshake (A, B honest, M with own keys, a recorded earlier session, M-built messages with every identity/signature combination, junk, any delivery order/number) for: a completed side reports the owner of the static key it completed with; A reporting B implies B answered A's own m1 (no replay); with differing prologues A and B never complete with each other; the canary (finish() without signature verification) is rejected. Real code: initiator and responder upgrades joined by a relay that applies, per handshake message, a bit flip at every byte offset (incl. length prefix), truncation at every length, drop, duplication, replay of a recorded honest session, M terminating both handshakes with the real code and its own identity, identity splices (6 payload variants x 2 roles x impersonating the expected peer or a third party x 3 key types), a prologue mismatch, and WebTransport certhash sets (expected by the initiator / announced by the responder: satisfiable, unsatisfiable, and combined with every identity splice - M announces a superset, the same, a different set or nothing); per side done(peer)/err is validated by TLC: done implies peer = the counterpart.",
+    "text": "TLC exhaustively explores the symbolic handshake (A, B honest, M with own keys, a recorded earlier session, M-built messages with every identity/signature combination, junk, any delivery order/number) for: a completed side reports the owner of the static key it completed with; A reporting B implies B answered A's own m1 (no replay); with differing prologues A and B never complete with each other; the canary (finish() without signature verification) is rejected. Real code: initiator and responder upgrades joined by a relay that applies, per handshake message, a bit flip at every byte offset (incl. length prefix), truncation at every length, drop, duplication, replay of a recorded honest session, M terminating both handshakes with the real code and its own identity, identity splices (6 payload variants x 2 roles x impersonating the expected peer or a third party x 3 key types), a prologue mismatch, and WebTransport certhash sets (expected by the initiator / announced by the responder: satisfiable, unsatisfiable, and combined with every identity splice - M announces a superset, the same, a different set or nothing); per side done(peer)/err is validated by TLC: done implies peer = the counterpart, and the side that is fed a message of an earlier session (replay) never completes.",
     "note": "Cryptographic strength is assumed (ideal crypto in the model); exploration level. Identity-splice attacks use the noise `verif` hook (payload override): M keeps its static key and presents X's identity key with X's / M's / no signature, towards the initiator and towards the responder.",
     "design_ref": "6/C16",
 }
